@@ -1487,4 +1487,46 @@ theorem quiescentWF_of_admB (s0 : St) (h : Inv s0) (D : Nat → Prop) (programs 
     · exact hq
     · cases (hnone i _ hb).1
 
+/-- edge ids that some thread deletes, by `delete_edge` or as an item of `batch_delete_edges` -/
+def DelSet (programs : List (List Op)) (e : Nat) : Prop :=
+  (∃ ops ∈ programs, Op.deleteEdge e ∈ ops) ∨
+  (∃ ops ∈ programs, ∃ ids, Op.batchDeleteEdges ids ∈ ops ∧ e ∈ ids)
+
+/-- the operations `quiescent_wf_with_batch_calls_partial` admits, as a condition on the programs:
+    what `Admissible` admits, `batch_create_nodes` and `batch_create_edges` with ANY items,
+    `batch_delete_edges` of ids handed out before the phase; no edge both updated and deleted (by
+    `delete_edge` or by a `batch_delete_edges`) -/
+def AdmissibleB (s0 : St) (programs : List (List Op)) : Op → Prop
+  | .createEdge .. => True
+  | .createNode .. => True
+  | .updateNode .. => True
+  | .addLabel .. => True
+  | .removeLabel .. => True
+  | .batchCreateEdges _ => True
+  | .batchCreateNodes _ => True
+  | .deleteEdge e => e ≤ s0.ne
+  | .batchDeleteEdges ids => ∀ e ∈ ids, e ≤ s0.ne
+  | .updateEdge e _ => e ≤ s0.ne ∧ ¬ DelSet programs e
+  | _ => False
+
+theorem quiescentWF_of_admissibleB (s0 : St) (h : Inv s0) (programs : List (List Op))
+    (hadm : ∀ ops ∈ programs, ∀ op ∈ ops, AdmissibleB s0 programs op) : QuiescentWF s0 programs := by
+  apply quiescentWF_of_admB s0 h (DelSet programs) programs
+  intro ops ho op hop
+  have ha := hadm ops ho op hop
+  cases op with
+  | createEdge a b d ty v => trivial
+  | createNode l v => trivial
+  | updateNode n lab v => trivial
+  | addLabel n l => trivial
+  | removeLabel n l => trivial
+  | batchCreateEdges items => trivial
+  | batchCreateNodes items => trivial
+  | deleteEdge e => exact ⟨ha, Or.inl ⟨ops, ho, hop⟩⟩
+  | batchDeleteEdges ids => exact fun e he => ⟨ha e he, Or.inr ⟨ops, ho, ids, hop, he⟩⟩
+  | updateEdge e v => exact ⟨ha.1, ha.2⟩
+  | deleteNode n hint => exact ha.elim
+  | batchDeleteNodes ids => exact ha.elim
+  | batchUpdateNodes us => exact ha.elim
+
 end Neumann.Graph
